@@ -214,7 +214,7 @@ class AmbigGen:
     GENERAL = {"ptrparen": "%s (*%s);", "arr": "%s (%s)[2];", "init": "%s (%s) = 1;", "mulinit": "%s * %s = 0;", "two": "%s (%s), (Z);", "mulcomma": "%s * %s, Z;",
                "fnptr": "%s (*%s)(U);", "fn": "%s (%s)(U);", "mularr": "%s * %s[2], Z;", "ptrfnptr": "%s (**%s)(U, U);", "initlist": "%s (%s)[2] = { 1, 2 };"}
 
-    COLLISIONS = ["member", "tag", "member-use", "label", "member-late", "proto-param", "other-fn-param", "other-fn-local", "other-fn-typedef", "late-redecl"]
+    COLLISIONS = ["member", "tag", "member-use", "label", "member-late", "proto-param", "other-fn-param", "other-fn-local", "other-fn-typedef", "late-redecl", "nested-proto-param", "nested-fn-param"]
 
     def collide(self, c, kind):
         """the same spellings in ANOTHER name space (6.2.3: members, tags and labels do not hide ordinary identifiers and are not hidden
@@ -241,6 +241,15 @@ class AmbigGen:
             pre, inbody = "", ""
         elif kind == "label":
             pre, inbody = "", " goto %s; %s: ;" % (T, T)
+        elif kind in ("nested-proto-param", "nested-fn-param"):
+            # the same spellings as parameter names of a prototype NESTED in f's own parameter list (a callback parameter): that prototype
+            # scope ends with the inner declarator (6.2.1p4), the names do not reach f's body.  Seeded change C09-c needed exactly this.
+            extra = ("void (*cb_)(int %s, char %s)" if kind == "nested-proto-param" else "int fp_(double %s, int %s)") % (T, x + "_" if x == T else x)
+            j = text.index("int f(") + len("int f(")
+            k = text.index(")\n{", j)
+            params = text[j:k]
+            text = text[:j] + (extra if params == "void" else params + ", " + extra) + text[k:]
+            pre, inbody = "", ""
         else:
             # the same spelling declared in a scope that has ENDED before f: prototype scope, another function's parameters / block
             pre, inbody = "", ""
